@@ -39,3 +39,14 @@ def pow2(n):
 
 
 CONC = {k: v for k, v in list(globals().items()) if callable(v) and not k.startswith("_")}
+
+
+def ofsval(b, lo, hi):
+    """value of the OFS_DELTA offset encoding b[lo:hi] (git: big-endian base-128 with +1 per continuation)."""
+    v = b[lo] & 0x7F
+    for k in range(lo + 1, hi):
+        v = ((v + 1) << 7) + (b[k] & 0x7F)
+    return v
+
+
+CONC = {k: v for k, v in list(globals().items()) if callable(v) and not k.startswith("_")}
